@@ -76,6 +76,10 @@ func (p *printer) printSeparatedList(list []ast.Vertex, separators []*token.Toke
 			p.write(defaultSeparator)
 		}
 	}
+
+	for k := len(list); k < len(separators); k++ {
+		p.printToken(separators[k], nil)
+	}
 }
 
 func (p *printer) printToken(t *token.Token, def []byte) {
